@@ -143,7 +143,7 @@ impl Ctx {
         if !supported {
             self.model_unsupported += 1;
         }
-        let agree = !supported || imp == model;
+        let agree = !supported || imp == model || (imp.starts_with("PANIC") && model.starts_with("PANIC"));
         Exchange { line: line.to_string(), imp, model, agree, supported }
     }
 
